@@ -626,6 +626,21 @@ class Gen:
                 self.emit_line(indent, "%s = [%s + %s for %s, %s in [%s, %s]]" % (a, "ka_", "kb_", "ka_", "kb_", d, d))
                 sc.vars.append(Var(a, LS, self.fresh_group()))
             return
+        if k < 84 and indent <= 2:
+            # a local that is captured by a nested function and then updated by augmented assignment in a loop
+            t, sh, i_ = self.fresh_var(), self.fresh_var("sh"), self.fresh_var("i")
+            self.emit_line(indent, "%s = %s" % (t, e(INT)))
+            if self.p(0.5):
+                self.emit_line(indent, "def %s():" % sh)
+                self.emit_line(indent + 1, "return %s" % t)
+            else:
+                self.emit_line(indent, "%s = lambda: %s" % (sh, t))
+            self.emit_line(indent, "for %s in range(%d):" % (i_, r.randint(0, 3)))
+            self.emit_line(indent + 1, "%s %s %s" % (t, self.ch(["+=", "-=", "*=", "|=", "^="]), self.ch([i_, "(%s + 1)" % i_, "%s()" % sh])))
+            self.emit_line(indent + 1, "emit(%s)" % t)
+            self.emit_line(indent, "emit(%s())" % sh)
+            sc.vars.append(Var(t, INT, None))
+            return
         if k < 86 and sc.loop_depth > 0:
             self.emit_line(indent, "if %s:" % e(BOOL))
             self.emit_line(indent + 1, self.ch(["break", "continue"]))
